@@ -13,6 +13,7 @@ func init() {
 		Explanation: "Decides the structural conditions of bounded, once-only, never-self-addressed gossip: (R1) in Agent.Send the message is encoded and sent only under TTL > 0 (strictly: a negative TTL must not travel), the TTL is decremented exactly once, unconditionally, before the message is encoded; " +
 			"(R2) tasks are created and the batch republished only on the not-yet-processed edge of wasProcessed, and wasProcessed records the digest it looked up on every path on which it answers 'not processed' with a cache present; (R3) the exclusion list handed to the topology contains the agent itself and the source, exclusion is applied before selection and compares peers by name (the agent's own entry in the topology is a different object than Agent.Self); " +
 			"(R4) the topology map and its peer lists are accessed only under the topology mutex; (R5) a peer list obtained by map lookup is nil-tested before use.",
+		Added:       "Also (R2) the cache option installs a cache on every path and each message is decoded into its own batch; (R6) every gossip lock is released on every exit.",
 		Assumptions: []string{"memberlist delivers join/leave events from its own goroutines"},
 		Declined:    "termination of dissemination as a network-level statement; consistency under all interleavings.",
 	}, runC18)
